@@ -73,7 +73,7 @@ func checkC08(c *core.Ctx) {
 		var p model.Piece
 		switch i % 3 {
 		case 0:
-			p = model.RandPiece(r, model.GenOpts{MinLen: 1, MaxLen: 12, RestProb: 0.2, SettingProb: 0.15, TextProb: 0.1, KeyChanges: true, BassProb: 0.5})
+			p = model.RandPiece(r, model.GenOpts{MinLen: 1, MaxLen: 12, RestProb: 0.2, SettingProb: 0.15, TextProb: 0.1, KeyChanges: true, BassProb: 0.5, Tiny: true})
 		case 1:
 			p = genTrackPiece(r, 12)
 		default:
@@ -91,7 +91,7 @@ func checkC08(c *core.Ctx) {
 
 	instruments := []string{"", "x", "Piano", strings.Repeat("i", 127), strings.Repeat("j", 128), strings.Repeat("k", 300), "ピアノ", "a b", "-dash", "é", strings.Repeat("long", 5000)}
 	c.Stream("dedicated", c.N(2500, 60000), func(i int, r *rand.Rand) {
-		p := model.RandPiece(r, model.GenOpts{MinLen: 1, MaxLen: 8, RestProb: 0.25, SettingProb: 0.2, TextProb: 0.4, KeyChanges: true, BassProb: 0.3, MaxDeg: 9})
+		p := model.RandPiece(r, model.GenOpts{MinLen: 1, MaxLen: 8, RestProb: 0.25, SettingProb: 0.2, TextProb: 0.4, KeyChanges: true, BassProb: 0.3, MaxDeg: 9, Tiny: i%3 == 0})
 		// chords that strike one key twice: bass an octave above the root coincides with the root
 		for j := range p.Inst {
 			if p.Inst[j].Chord != nil && r.Intn(4) == 0 {
@@ -169,6 +169,25 @@ func checkC08(c *core.Ctx) {
 		probes = append(probes, probe{fmt.Sprintf("%d-consecutive-rests-of-200000-beats-track3", k), model.Piece{Inst: mid}, model.Flags{Track: 3}})
 		probes = append(probes, probe{fmt.Sprintf("%d-trailing-rests-of-200000-beats", k), model.Piece{Inst: append([]model.Instance{{Chord: ch(), Values: one()}}, rests...)}, model.Flags{Track: 2}})
 	}
+	// a note track that idles beyond 2^28 ticks while the first track stays busy with meta events on the rests
+	for _, kind := range []string{"txt", "bpm", "key", "mrk"} {
+		for _, n := range []int{2, 3, 5} {
+			mk := func() model.Instance {
+				in := model.Instance{Values: []model.Frac{{Num: 200000, Den: 1}}}
+				switch kind {
+				case "bpm":
+					in.BPM = 90
+				case "key":
+					in.Key = "G"
+				default:
+					in.Meta = map[string]string{kind: "still waiting"}
+				}
+				return in
+			}
+			probes = append(probes, probe{fmt.Sprintf("busy-first-track-%s-track%d", kind, n), model.Piece{Inst: []model.Instance{{Chord: ch(), Values: one()}, mk(), mk(), {Chord: ch(), Values: one()}}}, model.Flags{Track: n}})
+			probes = append(probes, probe{fmt.Sprintf("busy-first-track-%s-trailing-track%d", kind, n), model.Piece{Inst: []model.Instance{{Chord: ch(), Values: one()}, mk(), mk(), mk()}}, model.Flags{Track: n}})
+		}
+	}
 	{
 		var p model.Piece
 		for i := 0; i < 40; i++ {
@@ -213,6 +232,36 @@ func checkC08(c *core.Ctx) {
 			}
 		}
 		c.Nontrivial(fmt.Sprintf("overwrite%d", i))
+	})
+
+	// chords above the MIDI range (large compound degrees, high basses): whether crd refuses them or writes
+	// something, what it writes must be a well-formed file with paired notes
+	c.Stream("outofrange", c.N(300, 6000), func(i int, r *rand.Rand) {
+		p := model.RandPiece(r, model.GenOpts{MinLen: 1, MaxLen: 6, RestProb: 0.2, SettingProb: 0.1, KeyChanges: true, BassProb: 0.3, MaxDeg: 9})
+		hit := false
+		for j := range p.Inst {
+			if ch := p.Inst[j].Chord; ch != nil && (!hit || r.Intn(2) == 0) {
+				n := 16 + r.Intn(100)
+				q := theory.Major
+				if k := (n - 1) % 7; k == 0 || k == 3 || k == 4 {
+					q = theory.Perfect
+				}
+				ch.Deg = theory.Interval{N: n, Q: q}
+				if r.Intn(3) == 0 {
+					b := theory.Interval{N: 8 + 7*r.Intn(12), Q: theory.Perfect}
+					ch.Bass = &b
+				}
+				hit = true
+			}
+		}
+		if !hit {
+			return
+		}
+		var f model.Flags
+		if r.Intn(2) == 0 {
+			f.Track = 1 + r.Intn(6)
+		}
+		judgeWellFormed(c, "outofrange", i, p, f, randWriteOpts(r), "outofrange")
 	})
 
 	c.Stream("boundary", len(probes), func(i int, r *rand.Rand) {
